@@ -1,6 +1,6 @@
 (* C18 correspondence: observed behaviour of the real configuration layer against the model.
    Records, marshal / unmarshal / Complete come from gen/GenCfgMsg.v (today's source). *)
-From FRP Require Export Corr.Common Model.Literals Model.CfgMsg Model.Validate Model.Template Model.FlagsCheck.
+From FRP Require Export Corr.Common Model.Literals Model.CfgMsg Model.Validate Model.Template Model.FlagsCheck Model.StrictLoad.
 Open Scope Z_scope.
 
 (* the float oracle as a finite table filled by the harness with what strconv.ParseFloat and
@@ -93,6 +93,9 @@ Inductive case :=
 (* a child process started with exactly the environment [environ] ("K=V" strings) renders the document
    through the real file entry point LoadFileContentWithTemplate(path, GetValues()) *)
 | CEnvTemplate (environ : list bytes) (segs : list tseg) (res : tresult)
+(* loads that ran CONCURRENTLY in one process (real config.LoadConfigure from several goroutines): for each,
+   its strict argument, unknown key at the top level?, per nested typed element unknown key?, rejected? *)
+| CLoadTrace (entries : list (bool * bool * list bool * bool))
 (* real frps flag set: --dashboard_tls_mode <arg> with the cert and key file flags: parse error?, webServer.tls *)
 | CTlsFlag (arg cert key : bytes) (parse_err : bool) (tls : option TLSConfig).
 
@@ -177,6 +180,11 @@ Definition check_case (c : case) : Z :=
       | TErr, TErr => 0
       | _, _ => 84
       end
+  | CLoadTrace entries =>
+      (* the verdict the theorem gives for every schedule *)
+      if forallb (fun e : bool * bool * list bool * bool =>
+                    let '(st, top, nested, rej) := e in Bool.eqb rej (sl_verdict (mk_sl_load st top nested))) entries
+      then 0 else 95
   | CTlsFlag arg cert key parse_err tls =>
       match flags_web_tls arg cert key with
       | None => if parse_err then 0 else 91
@@ -220,3 +228,9 @@ Definition is_env_eq_case (c : case) : bool :=
       existsb (fun e => match env_split e with Some (_, v) => existsb (fun b => Byte.eqb b tpl_eq) v | None => false end) environ
   | _ => false
   end.
+Definition load_trace_strict_rejections (c : case) : Z :=
+  match c with
+  | CLoadTrace entries => count_if (fun e : bool * bool * list bool * bool => let '(st, _, _, rej) := e in st && rej) entries
+  | _ => 0
+  end.
+Fixpoint sum_Z {A} (f : A -> Z) (l : list A) : Z := match l with [] => 0 | x :: r => f x + sum_Z f r end.
